@@ -37,6 +37,11 @@ var (
 
 var errNotStart = errors.New("xmpp: SendElement did not begin with a StartElement")
 
+// errOutputBroken is returned by everything that transmits an element after an
+// earlier write stopped in the middle of an element: whatever is written now
+// would become part of that element.
+var errOutputBroken = errors.New("xmpp: an earlier write was abandoned in the middle of an element")
+
 // earlyCloser is a token reader that closes itself as soon as reading is
 // complete (io.EOF is reached). It is used to release the read lock as aquired
 // before starting a handler as soon as the handler finishes reading the element
@@ -811,9 +816,11 @@ func (s *Session) Conn() net.Conn {
 }
 
 type lockWriteCloser struct {
-	w   *Session
-	err error
-	m   sync.Locker
+	w       *Session
+	err     error
+	m       sync.Locker
+	started bool
+	broken  bool
 }
 
 func (lwc *lockWriteCloser) EncodeToken(t xml.Token) error {
@@ -828,6 +835,13 @@ func (lwc *lockWriteCloser) EncodeToken(t xml.Token) error {
 	}
 	lwc.w.stateMutex.RUnlock()
 
+	if !lwc.started {
+		lwc.started = true
+		lwc.broken = lwc.w.outputBroken()
+	}
+	if lwc.broken {
+		return errOutputBroken
+	}
 	return lwc.w.out.e.EncodeToken(t)
 }
 
@@ -940,6 +954,15 @@ func (s *Session) outputClosed() bool {
 	return s.state&OutputStreamClosed == OutputStreamClosed
 }
 
+// outputBroken reports whether the last thing that was written left an element
+// open (the tokens being copied ran out or failed early, or the encoder or the
+// connection refused a token).
+// The output lock must be held.
+func (s *Session) outputBroken() bool {
+	se, ok := s.out.e.(*stanzaEncoder)
+	return ok && (se.depth != 0 || se.failed)
+}
+
 func (s *Session) closeSession() error {
 	if s.state&OutputStreamClosed == OutputStreamClosed {
 		return nil
@@ -1009,6 +1032,9 @@ func (s *Session) Encode(ctx context.Context, v interface{}) error {
 	if s.outputClosed() {
 		return ErrOutputStreamClosed
 	}
+	if s.outputBroken() {
+		return errOutputBroken
+	}
 
 	defer setWriteDeadline(ctx, s.conn)()
 	return marshal.EncodeXML(s.out.e, v)
@@ -1024,6 +1050,9 @@ func (s *Session) EncodeElement(ctx context.Context, v interface{}, start xml.St
 	verifhook.Yield("xmpp.EncodeElement.locked")
 	if s.outputClosed() {
 		return ErrOutputStreamClosed
+	}
+	if s.outputBroken() {
+		return errOutputBroken
 	}
 
 	defer setWriteDeadline(ctx, s.conn)()
@@ -1051,6 +1080,9 @@ func send(ctx context.Context, s *Session, r xml.TokenReader, start *xml.StartEl
 	verifhook.Yield("xmpp.send.locked")
 	if s.outputClosed() {
 		return ErrOutputStreamClosed
+	}
+	if s.outputBroken() {
+		return errOutputBroken
 	}
 
 	defer setWriteDeadline(ctx, s.conn)()
@@ -1188,6 +1220,10 @@ type stanzaEncoder struct {
 	depth int
 	from  jid.JID
 	ns    string
+
+	// failed is set when the underlying writer refuses a token: depth no longer
+	// says where the stream is.
+	failed bool
 }
 
 func (se *stanzaEncoder) EncodeToken(t xml.Token) error {
@@ -1261,7 +1297,11 @@ func (se *stanzaEncoder) EncodeToken(t xml.Token) error {
 		se.depth--
 	}
 
-	return se.TokenWriteFlusher.EncodeToken(t)
+	err := se.TokenWriteFlusher.EncodeToken(t)
+	if err != nil {
+		se.failed = true
+	}
+	return err
 }
 
 // UpdateAddr sets the address used by the session.
